@@ -27,10 +27,9 @@ NONTRIVIAL_FLOOR = 10
 
 
 def _sorted_columns(perm: list, R: int, S: int) -> list:
-    """A device mesh with the global ranks placed in a non-default order, but with every replicate-dimension column ascending: meshes whose
-    replicate groups are *not* ascending are the open finding F11 (excluded by construction, kept visible by a probe)."""
-    cols = [sorted(perm[j::S]) for j in range(S)]
-    return [cols[j][i] for i in range(R) for j in range(S)]
+    """Historical name: until the repair of F11 (5a3df1a) generated meshes had to keep every replicate column ascending; now any permutation of the
+    global ranks is a legal device mesh for the generator."""
+    return list(perm)
 
 
 def _strategy(maxW: int):
@@ -277,12 +276,6 @@ def oracle_real(case: dict) -> Outcome:
 
 
 PROBES = {
-    "F11": ("worlds", {"flavour": "hsdp", "R": 4, "S": 1, "G": 2, "comm_params": False, "comm_dtype": "default",
-                       "cfg": {"lr": 0.0078125, "beta1": 0.9, "beta2": 1.0, "beta3": -1.0, "epsilon": 1e-6, "momentum": 0.0, "dampening": 0.0, "nesterov": False, "wd": 0.0,
-                               "decoupled": True, "bias": True, "graft": {"type": "sgd"}, "mpd": 4, "merge": True, "freq": 1, "start": 2, "override": 0,
-                               "precond": {"kind": "shampoo", "solver": "eigen", "mult": 1.0, "ignored": [], "tol": 3}, "pdtype": "f32", "fdtype": "f32", "gscale": 1.0},
-                       "shapes": [[4, 4], [4, 4], [3]], "pseed": 1, "steps": [{"gseed": 3, "gkind": "gauss", "gscale": 1.0, "mask": [True, True, True]}],
-                       "repair": True, "mesh_perm": [0, 3, 2, 1], "probe": "F11"}),
     "F5": ("worlds", {"flavour": "hsdp", "R": 2, "S": 1, "G": -1, "comm_params": False, "comm_dtype": "default",
                       "cfg": {"lr": 0.0078125, "beta1": 0.9, "beta2": 1.0, "beta3": -1.0, "epsilon": 1e-6, "momentum": 0.0, "dampening": 0.0, "nesterov": False, "wd": 0.0,
                               "decoupled": True, "bias": True, "graft": {"type": "sgd"}, "mpd": 4, "merge": True, "freq": 1, "start": 2, "override": 0,
